@@ -2,7 +2,7 @@
     each shard's stored examples) is a permutation of the contents of all shard files stored below that split — every stored shard
     exactly once, nothing else. *)
 Require Import Sedpack.Model.Base Sedpack.Generated.GenMerge Sedpack.Generated.GenFiller Sedpack.Model.Filler Sedpack.Model.Meta.
-Require Import Sedpack.Proofs.MergeBasics Sedpack.Proofs.MergeProofs Sedpack.Proofs.FillerProofs Sedpack.Proofs.HistoryProofs Sedpack.Proofs.ReachProofs Sedpack.Proofs.NoDupProofs Sedpack.Proofs.OrderProofs.
+Require Import Sedpack.Proofs.MergeBasics Sedpack.Proofs.MergeProofs Sedpack.Proofs.FillerProofs Sedpack.Proofs.HistoryProofs Sedpack.Proofs.ReachProofs Sedpack.Proofs.NoDupProofs Sedpack.Proofs.OrderProofs Sedpack.Proofs.CheckProofs.
 From Coq Require Import Permutation.
 Local Open Scope Z_scope.
 
@@ -76,3 +76,76 @@ Proof.
     destruct (fold_left _ writers (fsm, [], fresh fs)) as [[fs1 ups] kk]. cbn [fst snd] in *. exact (Fin fs1 ups W1 L1 M Hr).
 Qed.
 End K.
+
+Definition under (s : nat) (e : (dpath * nat) * (list nat * digest)) : bool :=
+  match fst (fst e) with x :: _ => Nat.eqb x s | [] => false end.
+Definition content_of (fs : fsT) (k : dpath * nat) : list nat :=
+  match lookup_shard (fst k) (snd k) (shards fs) with Some (ex, _) => ex | None => [] end.
+
+Lemma NoDup_map_filter {A B} (f : A -> B) (p : A -> bool) (l : list A) : NoDup (map f l) -> NoDup (map f (filter p l)).
+Proof.
+  induction l as [|a l IH]; intros N; [constructor|]. cbn [map] in N. inversion N as [|x y Hx Hy]; subst. cbn [filter].
+  destruct (p a); [cbn [map]; constructor; [|apply IH; exact Hy] | apply IH; exact Hy].
+  intros Hin. apply Hx. apply in_map_iff in Hin as (b & E & Hb). apply filter_In in Hb as [Hb _]. apply in_map_iff. exists b. auto.
+Qed.
+
+Lemma lookup_shard_In d n v l : lookup_shard d n l = Some v -> List.In ((d, n), v) l.
+Proof.
+  induction l as [|[[d' n'] v'] t IH]; cbn [lookup_shard]; [discriminate|].
+  destruct (dpath_eqb d' d && Nat.eqb n' n) eqn:E; [|intros H; right; apply IH, H].
+  apply andb_true_iff in E as [E1 E2]. apply dpath_eqb_eq in E1. apply Nat.eqb_eq in E2. subst. intros [= ->]. left. reflexivity.
+Qed.
+
+Section It.
+Variable eps : nat.
+Hypothesis Heps : (1 <= eps)%nat.
+
+Lemma history_keys h st : run_history eps h = Ok st -> KeysNoDup (fst st).
+Proof.
+  unfold run_history.
+  assert (G : forall h st0 st1, Inv st0 -> KeysNoDup (fst st0) -> fold_left (fun acc s => match acc with Err e => Err e | Ok stx => run_session eps stx s end) h (Ok st0) = Ok st1 -> KeysNoDup (fst st1)).
+  { induction h0 as [|s t IH]; intros st0 st1 HI K Hf; cbn [fold_left] in Hf.
+    - injection Hf as <-. exact K.
+    - destruct (run_session eps st0 s) as [stx|e] eqn:Er.
+      + apply (IH stx st1); [apply (run_session_inv eps Heps st0 s stx HI Er) | apply (session_keys eps Heps st0 s stx HI K Er) | exact Hf].
+      + exfalso. clear -Hf. induction t as [|x t IHt]; cbn [fold_left] in Hf; [discriminate | auto]. }
+  intros Hr. apply (G h (fs0, []) st HistoryProofs.inv_init); [constructor | exact Hr].
+Qed.
+
+(** unshuffled iteration of a split = the contents of the shard files stored below it, each exactly once *)
+Theorem history_iterate_is_stored h fs info : run_history eps h = Ok (fs, info) ->
+  forall s li, dget info s = Some li ->
+  Permutation (iterate fs info s) (flat_map (fun e => fst (snd e)) (filter (under s) (shards fs))).
+Proof.
+  intros Hr s li Hg.
+  pose proof (history_keys h (fs, info) Hr) as HK. cbn [fst] in HK.
+  destruct (history_inv4 eps Heps h (fs, info) Hr) as (((Hwf & Hfr & Hex) & _) & Hdk & _ & _). cbn [fst snd] in *.
+  destruct (Hex s li Hg (fun f => f)) as [Hdir _].
+  unfold iterate. rewrite Hg, Hdir.
+  set (L := dfs FUEL fs [s]). set (S := filter (under s) (shards fs)).
+  assert (Wf1 : WFunder fs [s]) by (eapply WFunder_mono; [|exact Hwf]; reflexivity).
+  (* the same keys on both sides *)
+  assert (Pk : Permutation (map pair_of L) (map fst S)).
+  { apply NoDup_Permutation.
+    - apply (dfs_nodup FUEL fs [s] Wf1 Hdk).
+    - apply NoDup_map_filter. exact HK.
+    - intros [d n]. split.
+      + intros Hin. apply in_map_iff in Hin as (sh & E & Hsh). unfold pair_of in E. injection E as <- <-.
+        pose proof (dfs_dirs FUEL fs [s] sh Wf1 Hsh) as Hp. pose proof (CheckProofs.dfs_hashes FUEL fs [s] sh Wf1 Hsh) as Hh.
+        destruct (lookup_shard (sh_dir sh) (sh_name sh) (shards fs)) as [v|] eqn:El; [|discriminate].
+        apply lookup_shard_In in El. apply in_map_iff. exists ((sh_dir sh, sh_name sh), v). split; [reflexivity|].
+        apply filter_In. split; [exact El|]. unfold under. cbn [fst]. apply prefix_single in Hp as [t ->]. apply Nat.eqb_refl.
+      + intros Hin. apply in_map_iff in Hin as ([[d' n'] v] & E & He). cbn [fst] in E. injection E as -> ->.
+        apply filter_In in He as [He Hu]. unfold under in Hu. cbn [fst] in Hu. destruct d as [|x t]; [discriminate|]. apply Nat.eqb_eq in Hu. subst x.
+        pose proof (lookup_shard_of_in (s :: t) n v (shards fs) HK He) as El.
+        destruct (history_all_shards_listed eps Heps h fs info Hr s t n v El) as (li' & sh & _ & _ & Hin & Hd & Hn).
+        apply in_map_iff. exists sh. split; [unfold pair_of; rewrite Hd, Hn; reflexivity | exact Hin]. }
+  (* the same contents *)
+  assert (E1 : flat_map (examples_of fs) L = flat_map (content_of fs) (map pair_of L)).
+  { rewrite flat_map_concat_map, (flat_map_concat_map (content_of fs)), map_map. reflexivity. }
+  assert (E2 : flat_map (fun e => fst (snd e)) S = flat_map (content_of fs) (map fst S)).
+  { rewrite flat_map_concat_map, (flat_map_concat_map (content_of fs)), map_map. f_equal. apply map_ext_in. intros [[d n] [ex hs]] He.
+    apply filter_In in He as [He _]. unfold content_of. cbn [fst snd]. rewrite (lookup_shard_of_in d n (ex, hs) (shards fs) HK He). reflexivity. }
+  rewrite E1, E2. apply Permutation_flat_map. exact Pk.
+Qed.
+End It.
